@@ -155,26 +155,56 @@ func ZZ_C19_constructors_agree() {
 }
 
 // Equals: reflexive, symmetric, never across kinds, never for clearly different parameters
-func ZZ_C19_equality() {
-	zzvBound("equality", "all ordered pairs of the three kinds; gamma/offset of both sides over all finite float64 with gamma > 1")
+func ZZ_C19_equality_reflexive() {
+	zzvBound("equality", "gamma/offset over all finite float64 with gamma > 1; the three kinds")
+	zzvSolverSeconds(300)
+	k := zzvChoose("kind", 3)
+	g, o := zzGammaOffset()
+	a := zzMake(k, g, o)
+	zzvCover("mapping")
+	zzvAssert("reflexive", a.Equals(a))
+	b := zzMake(k, g, o)
+	zzvAssert("identical-parameters-equal", a.Equals(b) && b.Equals(a))
+}
+
+func ZZ_C19_equality_across_kinds() {
 	k1, k2 := zzvChoose("kind1", 3), zzvChoose("kind2", 3)
 	g1, o1 := zzGammaOffset()
 	g2, o2 := zzGammaOffset()
 	a, b := zzMake(k1, g1, o1), zzMake(k2, g2, o2)
 	zzvCover("pair")
-	zzvAssert("reflexive", a.Equals(a) && b.Equals(b))
-	zzvAssert("symmetric", a.Equals(b) == b.Equals(a))
 	if k1 != k2 {
-		zzvAssert("different-kinds-never-equal", !a.Equals(b))
-		return
+		zzvAssert("different-kinds-never-equal", !a.Equals(b) && !b.Equals(a))
+	}
+}
+
+func zzC19Pair(k int, bothSymbolic bool) {
+	zzvBound("equality pairs", "one mapping with the real base for accuracy 0.01 and an offset from {0, 1.5, -2} against a mapping of the same kind whose base and offset range over all finite float64 (base > 1); thorough: both symbolic")
+	zzvSolverSeconds(300)
+	var g1, o1 float64
+	if bothSymbolic {
+		g1, o1 = zzGammaOffset()
+	} else {
+		m0, _ := NewLogarithmicMapping(0.01)
+		g1, o1 = m0.gamma, []float64{0, 1.5, -2}[zzvChoose("offset1", 3)]
+	}
+	g2, o2 := zzGammaOffset()
+	a, b := zzMake(k, g1, o1), zzMake(k, g2, o2)
+	zzvCover("pair")
+	eab := a.Equals(b)
+	if bothSymbolic {
+		zzvAssert("symmetric", eab == b.Equals(a))
 	}
 	// clearly different bases or offsets are never equal
-	farG := g2 > g1*1.000001
-	farO := zzvAnd(o1 > 1, o2 > o1*1.000001)
-	zzvAssert("clearly-different-base-not-equal", zzvImplies(farG, !a.Equals(b)))
-	zzvAssert("clearly-different-offset-not-equal", zzvImplies(farO, !a.Equals(b)))
-	zzvAssert("identical-parameters-equal", zzvImplies(zzvAnd(g1 == g2, o1 == o2), a.Equals(b)))
+	zzvAssert("clearly-different-base-not-equal", zzvImplies(zzvOr(g2 > g1*1.000001, g2 < g1*0.999999), !eab))
+	zzvAssert("clearly-different-offset-not-equal", zzvImplies(zzvOr(o2 > o1+0.001, o2 < o1-0.001), !eab))
+	zzvAssert("equal-when-parameters-identical", zzvImplies(zzvAnd(g1 == g2, o1 == o2), eab))
 }
+
+func ZZ_C19_equality_pairs_log()      { zzC19Pair(0, false) }
+func ZZ_C19_equality_pairs_linear()   { zzC19Pair(1, false) }
+func ZZ_C19_equality_pairs_cubic()    { zzC19Pair(2, false) }
+func ZZ_C19_equality_symmetric_T()    { zzC19Pair(0, true) }
 
 // accuracies 0.1% or more apart give unequal logarithmic mappings (the base formula is exact IEEE
 // division; for the interpolated kinds Pow is uninterpreted, so this is checked on a concrete grid)
